@@ -14,6 +14,11 @@ from tv import lang
 PLAIN_ATOMS = ['.*', '.+', '[A-Z]+', '[0-9]{4}', '(?:UBER|LYFT)', '^', '$', '(?!.*EATS)', 'S?', '[ *-]', '.']
 ESCAPE_ATOMS = [r'\d+', r'\s+', r'\s*', r'\w+', r'\b', r'\.', r'\*', r'\S', r'#\d{4}', r'\bUBER\b', r'(\w)\1', r'\\', r'\d{5}', r'\$']
 QUOTE_ATOMS = ['"', "'", '"AMZN"']
+# atoms containing `=` / look-around / named back-references, each with descriptions that tell its regex reading from any other reading of the text
+WITNESS = {'UBER(?=.*EATS)': ['UBER EATS', 'UBER =EATS', 'UBER TRIP'], 'A=B': ['A=B', 'A==B', 'A B'], '(?P<a>X)(?P=a)': ['XX', 'XY'], '(?<=SQ )CAFE': ['SQ CAFE', 'CAFE'],
+           r'REF=\d{4}': ['REF=1234', 'REF==1234'], 'ID=[0-9]+': ['ID=77', 'ID==77', 'ID 77'], 'K=V=W': ['K=V=W', 'K==V==W']}
+PLAIN_ATOMS = PLAIN_ATOMS + [a for a in WITNESS if '\\' not in a]
+ESCAPE_ATOMS = ESCAPE_ATOMS + [a for a in WITNESS if '\\' in a]
 # plain text that merely resembles the rule language in another letter case (still regexes in a CSV rule file)
 LOOKALIKE_ATOMS = ['BED BATH AND BEYOND', 'CRATE AND BARREL', 'PARK OR RIDE', 'Stop And Shop', 'FIELD.TRIP', 'AMOUNT=DUE', 'Source = BANK', 'FUZZY(', 'H AND M', 'DESCRIPTION!']
 LOOKALIKE_ATOMS = [a for a in LOOKALIKE_ATOMS if '(' not in a]
